@@ -150,10 +150,12 @@ func (s *state) get(v ir.Value) ValueNilness {
 		return ValueNilness{Outer: NeverNil}
 	}
 	num := s.n.number(v)
-	if num < len(s.m) {
+	if num < len(s.m) && s.m[num] != (ValueNilness{}) {
 		return s.m[num]
 	}
 
+	// Nothing has been recorded for v. (A slot may exist all the same,
+	// because a value with a higher number has been recorded.)
 	switch v.(type) {
 	case *ir.Parameter:
 		return ValueNilness{Inner: MaybeNil, Outer: MaybeNil}
